@@ -202,6 +202,31 @@ def curved_flow_cases(seed):
     return out
 
 
+def scaled_bad(m, I, blocks, sc):
+    """the same currents at another level (microampere, picoampere, far below, kiloampere): the report is linear in the
+    currents — the table must be the unit-level table times the factor"""
+    m.current = I.astype(complex) * sc
+    try:
+        b2 = parse_current_table(m.currents_as_mininec())
+    finally:
+        m.current = I.astype(complex)
+    ok = True
+    for blk in b2:
+        ln = []
+        for (k, v) in blk['lines']:
+            w = v / sc
+            wr = complex(round(w.real), round(w.imag))
+            if abs(w - wr) > 1e-4:
+                ok = False
+            ln.append((k, wr))
+        blk['lines'] = ln
+    if not ok or [bb['lines'] for bb in b2] != [bb['lines'] for bb in blocks]:
+        k2 = next((j for j, (x, y) in enumerate(zip(b2, blocks)) if x['lines'] != y['lines']), 0)
+        return ('with all currents multiplied by %g the current table is not the same table times %g: block %d prints %r, '
+                'at unit level %r' % (sc, sc, k2 + 1, b2[k2]['lines'][:3], blocks[k2]['lines'][:3]))
+    return None
+
+
 def classify(r, blocks, obs=None, I=None):
     bad, known = [], []
     fe = free_ends_ok(r, blocks)
@@ -240,6 +265,13 @@ def replay(rp):
     m, obs, I, blocks = evaluate(spec, rp.get('current_seed', 1))
     r = topo.parse_model(d.ask(topo.model_request(spec, obs, m)))
     bad, known = classify(r, blocks, obs, I)
+    if not bad:
+        fg = flow_geometric(m, I, blocks)
+        bad = [fg] if fg else bad
+    for sc in (1e-6, 1e-13, 1e-20, 1e3):
+        if not bad:
+            sb = scaled_bad(m, I, blocks, sc)
+            bad = [sb] if sb else bad
     print('replay ->', bad or ('known finding only' if known else 'property holds'))
     return 1 if bad else 0
 
@@ -285,6 +317,12 @@ def run(ck):
             fg = flow_geometric(m, I, blocks)
             if fg:
                 bad = [fg]
+        if not bad and i % 4 == 1:
+            sc = [1e-6, 1e-13, 1e-20, 1e3][(i // 4) % 4]
+            ck.count('scaled_current_cases')
+            sb = scaled_bad(m, I, blocks, sc)
+            if sb:
+                bad = [sb]
         if bad:
             viol.append(dict(spec=spec, observed=bad, current_seed=ck.seed * 7919 + i))
     # arcs, helices, two-object loops: the third clause from the geometry alone
